@@ -212,6 +212,12 @@ func collect(dir string) []mut {
 					"IndexByte": "LastIndexByte", "ByteLowercase": "ByteUppercase", "ByteUppercase": "ByteLowercase",
 					"min": "max", "max": "min", "Add": "Set", "Set": "Add", "RLock": "Lock", "RUnlock": "Unlock", "Lock": "RLock", "Unlock": "RUnlock",
 				}
+				// drop a defensive copy: slices.Clone(x) -> x, x.ToSlice() -> the receiver's field is out of reach, so only Clone
+				if sel, ok := x.Fun.(*ast.SelectorExpr); ok && sel.Sel.Name == "Clone" && len(x.Args) == 1 {
+					c0, c1 := fset.Position(x.Pos()).Offset, fset.Position(x.End()).Offset
+					a0, a1 := fset.Position(x.Args[0].Pos()).Offset, fset.Position(x.Args[0].End()).Offset
+					out = append(out, mut{file: rel, off: c0, end: c1, repl: string(src[a0:a1]), kind: "drop-clone", old: string(src[c0:c1]), line: fset.Position(x.Pos()).Line})
+				}
 				switch fun := x.Fun.(type) {
 				case *ast.Ident:
 					if c, ok := counterpart[fun.Name]; ok {
